@@ -320,7 +320,7 @@ def _native_stack(tier, seed):
                      "stack and allocatable set after every call, no register handed out twice, reserved registers never popped"}
 
 
-NATIVE = [("allocated-functions", N19.explore), ("register-stack-model", _native_stack), ("reservation-nesting", N19.explore_reservations), ("infinite-registers", N19.explore_infinite)]
+NATIVE = [("allocated-functions", N19.explore), ("register-stack-model", _native_stack), ("reservation-nesting", N19.explore_reservations), ("infinite-registers", N19.explore_infinite), ("loops", N19.explore_loops)]
 
 
 
